@@ -297,11 +297,15 @@ func (w *world) waiter(t *simcore.Task) {
 			continue // which revision is "the failed change" is ambiguous when other reconcilers' status writes move the object
 		}
 		// retry low watermark: zero exactly when no failed object awaits retry
-		from := roundsBefore - 1
+		// The values are read once, at some instant of the call: candidates are the state published by the
+		// last round that ended before the call - or by the one before it, because a round's end is recorded
+		// here slightly before the reconciler publishes its result - the initial state (nothing failed) when
+		// at most one round had ended, and every round end until the return.
+		from := roundsBefore - 2
 		if from < 0 {
 			from = 0
 		}
-		okLW := len(rc.rounds) == 0 && lw == 0
+		okLW := (len(rc.rounds) == 0 || roundsBefore <= 1) && lw == 0
 		for _, re := range rc.rounds[minInt(from, len(rc.rounds)):] {
 			if lw == 0 {
 				if len(re.strict) == 0 {
